@@ -141,6 +141,8 @@ type Scenario struct {
 	MapOrder bool
 	// BoundedOnly: too large for the unbounded pass (left to the preemption-bounded exploration)
 	BoundedOnly bool
+	// BoundDelta is added to the preemption bound of the group for this scenario (long executions)
+	BoundDelta int
 }
 
 // runSchedule executes the scenario under the schedule described by prefix.
@@ -489,7 +491,10 @@ func (d *dporState) addRaces(s *verifrt.Sched) {
 					}
 				}
 			}
-			if enabledByI {
+			if enabledByI && os.Getenv("VERIF_NO_ENABLEDBY") == "" {
+				if os.Getenv("VERIF_DPOR_TRACE") != "" {
+					fmt.Fprintf(os.Stderr, "SKIP race i=%d(t%d %v) j=%d(t%d %v) enabled=%v\n", i, T[i].Tid, len(T[i].Objs), j, T[j].Tid, len(T[j].Objs), T[i].Enabled)
+				}
 				continue
 			}
 			// adjacent in happens-before?
@@ -829,6 +834,56 @@ func runExplore(propID, group string, scenarios []*Scenario, bound int, tier str
 	runExploreSel(propID, group, scenarios, bound, tier, rep, nil)
 }
 
+// selfTestReduction compares, for a few scenarios of the group, the outcomes of an exploration
+// without reduction (and without bound) with those of the reduced one: equal when both finish,
+// contained when only the reduced one does. A difference is a fault of the explorer (exit 2), never a
+// violation of the property.
+func selfTestReduction(group string, scenarios []*Scenario, sel func(*Scenario) bool, secs int, rep *Report) {
+	var cand []*Scenario
+	for _, sc := range scenarios {
+		if sel == nil || sel(sc) {
+			cand = append(cand, sc)
+		}
+	}
+	n := 6
+	if len(cand) < n {
+		n = len(cand)
+	}
+	outcomeWithRealTimeOrder = true
+	defer func() { outcomeWithRealTimeOrder = false }()
+	res := map[string]int{}
+	for k := 0; k < n; k++ {
+		sc := cand[k*len(cand)/n]
+		full, red := newStats(), newStats()
+		exploreFrom(sc, nil, 1<<30, time.Now().Add(time.Duration(secs)*time.Second), full)
+		exploreDPOR(sc, time.Now().Add(time.Duration(secs)*time.Second), red)
+		switch {
+		case red.TimedOut:
+			res["reduced_exploration_unfinished"]++
+			continue
+		}
+		missing := 0
+		for o := range full.Outcomes {
+			if _, ok := red.Outcomes[o]; !ok {
+				missing++
+			}
+		}
+		extra := len(red.Outcomes) - (len(full.Outcomes) - missing)
+		switch {
+		case missing > 0 || (!full.TimedOut && extra != 0):
+			res["differing"]++
+			rep.HarnessErr = append(rep.HarnessErr, fmt.Sprintf("partial-order reduction self-test: scenario %s: %d outcomes of the unreduced exploration (%d schedules, finished=%v) are missing in the reduced one (%d schedules), %d extra", sc.Name, missing, full.Execs, !full.TimedOut, red.Execs, extra))
+		case full.TimedOut:
+			res["contained"]++
+		default:
+			res["equal"]++
+		}
+		res["schedules_unreduced"] += full.Execs
+		res["schedules_reduced"] += red.Execs
+	}
+	rep.Coverage["reduction_selftest_"+group] = res
+}
+
 // runExploreSel: only the scenarios accepted by sel (nil: all) are explored; scenarios is always the
 // complete list of the group, because the workers address scenarios by their index in it.
 func runExploreSel(propID, group string, scenarios []*Scenario, bound int, tier string, rep *Report, sel func(*Scenario) bool) {
@@ -853,6 +908,10 @@ func runExploreSel(propID, group string, scenarios []*Scenario, bound int, tier 
 		}
 		x := runSchedule(sc, nil, false)
 		s := x.Sched
+		bound := bound + sc.BoundDelta
+		if bound < 0 {
+			bound = 0
+		}
 		if len(scenarios) >= 3*numWorkers() || len(s.Points) == 0 {
 			tasks = append(tasks, exploreTask{Scenario: si, Prefix: []int{}, Bound: bound})
 			continue
